@@ -62,24 +62,31 @@ def V1.toString (l : V1) : Bytes :=
   let expiry : Int := if l.expires > 0 then l.expires - timeOffset else l.expires
   let e32 : UInt32 := UInt32.ofNat (expiry % 4294967296).toNat
   let key16 := (l.encKey ++ List.replicate 16 0).take 16
-  b64Encode (key16 ++ putBe32 l.user ++ putBe32 l.sign ++ putBe32 e32 ++ putBe32 l.type) ++ strBytes ":1"
+  b64Encode (key16 ++ putBe32 l.user ++ putBe32 l.sign ++ putBe32 e32 ++ putBe32 l.type) ++ [58, 49]   -- ":1"
 
 /-- `Parse`; `body v raw` is the external snappy+binary decoder for version `v`. -/
-def parse (body : Nat → Bytes → Outcome V23) (data : Bytes) : Outcome License :=
+def parseInner (body : Nat → Bytes → Outcome V23) (data : Bytes) : Outcome License :=
   if data.length < 5 then .err "no-license" else
   let pre := data.take (data.length - 2)
-  if hasSuffix data (strBytes ":1") then (parseV1 pre).map .v1
-  else if hasSuffix data (strBytes ":2") then
+  if hasSuffix data [58, 49] then (parseV1 pre).map .v1
+  else if hasSuffix data [58, 50] then
     match stdDecode pre with
     | .ok raw => (body 2 raw).map .v23
     | .err e => .err e
     | .panic w => .panic w
-  else if hasSuffix data (strBytes ":3") then
+  else if hasSuffix data [58, 51] then
     match stdDecode pre with
     | .ok raw => (body 3 raw).map .v23
     | .err e => .err e
     | .panic w => .panic w
   else (parseV1 data).map .v1
+
+/-- `Parse` after the D13 repair: a deferred `recover` turns a panic of the external body
+decoder into an error. -/
+def parse (body : Nat → Bytes → Outcome V23) (data : Bytes) : Outcome License :=
+  match parseInner body data with
+  | .panic _ => .err "recovered"
+  | r => r
 
 /-- `NewXtea(EncryptionKey)` on the 16 key bytes -/
 def xteaKeyOf (k : Bytes) : XteaKey :=
